@@ -63,3 +63,11 @@ package thrift
 // little-endian byte split and join), so the result is compared bit for bit:
 // NaN payloads and the sign of zero included.
 //@ roundtrip Double [C16]: encode (*TCompactProtocol).WriteDouble decode (*TCompactProtocol).ReadDouble unroll 1
+
+// The binary protocol's fixed-width fields (the reporter can be configured with
+// either protocol): big-endian bytes through encoding/binary (ASSUMED split /
+// join), written with one Write and read back with io.ReadFull.
+//@ roundtrip BinaryI64 [C16]: encode (*TBinaryProtocol).WriteI64 decode (*TBinaryProtocol).ReadI64 unroll 1
+//@ roundtrip BinaryI32 [C16]: encode (*TBinaryProtocol).WriteI32 decode (*TBinaryProtocol).ReadI32 unroll 1
+//@ roundtrip BinaryI16 [C16]: encode (*TBinaryProtocol).WriteI16 decode (*TBinaryProtocol).ReadI16 unroll 1
+//@ roundtrip BinaryDouble [C16]: encode (*TBinaryProtocol).WriteDouble decode (*TBinaryProtocol).ReadDouble unroll 1
